@@ -64,6 +64,40 @@ func loopHeaders(fn *ssa.Function) map[*ssa.BasicBlock]bool {
 	return out
 }
 
+// phiWriteArgs: the call writes a token chosen among constants by preceding branches
+// (a phi of constant strings): each alternative with the conditions on its incoming edge.
+type writeAlt struct {
+	s     string
+	conds []condFact
+}
+
+func phiWriteArgs(ci ssa.CallInstruction) []writeAlt {
+	c := ci.Common()
+	if !(c.IsInvoke() && (c.Method.Name() == "Write" || c.Method.Name() == "WriteString")) && calleeName(ci) != "io.WriteString" {
+		return nil
+	}
+	for _, a := range c.Args {
+		v := a
+		if cv, ok := v.(*ssa.Convert); ok {
+			v = cv.X
+		}
+		ph, ok := v.(*ssa.Phi)
+		if !ok {
+			continue
+		}
+		var out []writeAlt
+		for i, e := range ph.Edges {
+			s, ok := constString(e)
+			if !ok {
+				return nil
+			}
+			out = append(out, writeAlt{s, edgeConds(ph.Block().Preds[i], ph.Block())})
+		}
+		return out
+	}
+	return nil
+}
+
 // constBytesArg: the call writes the constant string s (as []byte or string).
 func constWriteArg(ci ssa.CallInstruction) (string, bool) {
 	c := ci.Common()
@@ -534,15 +568,23 @@ func (c *Ctx) readerRules() {
 	// ---- R09.6
 	rule := "R09.6"
 	type lw struct {
-		in ssa.Instruction
-		s  string
-		fn *ssa.Function
+		in    ssa.Instruction
+		s     string
+		fn    *ssa.Function
+		conds []condFact // conditions under which this token is the one written
 	}
 	var writes []lw
 	regInstrs(func(in ssa.Instruction) {
 		if ci, ok := in.(ssa.CallInstruction); ok {
 			if s, ok := constWriteArg(ci); ok && (s == "[" || s == "," || s == "]") {
-				writes = append(writes, lw{in, s, in.Parent()})
+				writes = append(writes, lw{in, s, in.Parent(), expandConds(impliedCondsIP(in.Block(), 0))})
+				return
+			}
+			// one write whose token is chosen beforehand: sep := "["; if started { sep = "," }
+			for _, alt := range phiWriteArgs(ci) {
+				if alt.s == "[" || alt.s == "," || alt.s == "]" {
+					writes = append(writes, lw{in, alt.s, in.Parent(), alt.conds})
+				}
 			}
 		}
 	})
@@ -584,19 +626,21 @@ func (c *Ctx) readerRules() {
 	// (a) inside the provider: flag-selected '[' / ',' , flag set, then the callback
 	var flag interface{}
 	var openW, sepW, cbCall ssa.Instruction
+	var openConds, sepConds []condFact
+	for _, w := range writes {
+		if w.fn != prov {
+			continue
+		}
+		if w.s == "[" {
+			openW, openConds = w.in, w.conds
+		}
+		if w.s == "," {
+			sepW, sepConds = w.in, w.conds
+		}
+	}
 	allInstrs(prov, func(in ssa.Instruction) {
-		if ci, ok := in.(ssa.CallInstruction); ok {
-			if s, ok := constWriteArg(ci); ok {
-				if s == "[" {
-					openW = in
-				}
-				if s == "," {
-					sepW = in
-				}
-			}
-			if ci.Common().Value == ssa.Value(cbParam) {
-				cbCall = in
-			}
+		if ci, ok := in.(ssa.CallInstruction); ok && ci.Common().Value == ssa.Value(cbParam) {
+			cbCall = in
 		}
 	})
 	flagLoad := func(v ssa.Value) (interface{}, bool) {
@@ -614,13 +658,13 @@ func (c *Ctx) readerRules() {
 		c.bad(rule, construct, p.pos(prov.Pos()), "the framing provider does not write both '[' and ',' and then invoke the element writer")
 	} else {
 		// flag: boolean variable tested by the If that separates the two writes
-		for _, cf := range expandConds(impliedConds(sepW.Block())) {
+		for _, cf := range sepConds {
 			if k, ok := flagLoad(cf.Cond); ok && cf.True {
 				flag = k
 			}
 		}
 		openUnderNot := false
-		for _, cf := range expandConds(impliedConds(openW.Block())) {
+		for _, cf := range openConds {
 			if k, ok := flagLoad(cf.Cond); ok && !cf.True && k == flag {
 				openUnderNot = true
 			}
@@ -960,9 +1004,7 @@ func (c *Ctx) classifyErrSite(in ssa.Instruction) (int64, string) {
 func (c *Ctx) wsWriterChoice(rule string) {
 	p := c.P
 	w := c.ws()
-	if !c.needWS(rule, "nextWriter", w.NextWriter) {
-		return
-	}
+	_ = w
 	invs := c.dispInvokes()
 	if len(invs) == 0 {
 		c.und(rule, "dispatcher invocation", "-", "no invocation of the dispatcher interface found")
@@ -1001,6 +1043,8 @@ func (c *Ctx) wsWriterChoice(rule string) {
 				return
 			}
 			switch x := v.(type) {
+			case *ssa.ChangeType:
+				collect(x.X, conds, d+1)
 			case *ssa.Phi:
 				for i, e := range x.Edges {
 					collect(e, append(append([]condFact{}, conds...), edgeConds(x.Block().Preds[i], x.Block())...), d+1)
@@ -1058,7 +1102,7 @@ func (c *Ctx) wsWriterChoice(rule string) {
 			case isNilConst(cd.v):
 				okAll = false
 				c.bad(rule, construct, c.ipos(in), "a nil writer provider is handed to the dispatcher: an error reply for such a request (unknown method, panic in a notification handler) calls a nil function and crashes the process")
-			case efn != nil && p.unbound(efn) == w.NextWriter:
+			case efn != nil && c.isLockedWriterProvider(p.unbound(efn)):
 				sawLocked = true
 				nonNil := false
 				for _, cf := range cd.conds {
@@ -1187,4 +1231,25 @@ func (c *Ctx) registrarRule(rule string) {
 	if n == 0 {
 		c.bad(rule, fmt.Sprintf("%s: channel registration", fname(d)), c.P.pos(d.Pos()), "channel results are no longer handed to the forwarding goroutine")
 	}
+}
+
+// isLockedWriterProvider: a writer provider (takes the element-writer callback) that obtains the
+// WebSocket message writer: its call cone calls NextWriter on the socket. (That this happens under
+// the write lock is R14.1's obligation at that call.)
+func (c *Ctx) isLockedWriterProvider(fn *ssa.Function) bool {
+	if fn == nil || len(fn.Params) == 0 || !isWriterCallbackType(fn.Params[len(fn.Params)-1].Type()) {
+		return false
+	}
+	found := false
+	c.P.coneInstrs(fn, func(in ssa.Instruction) {
+		if c.isSocketNextWriter(in) {
+			found = true
+		}
+	})
+	return found
+}
+
+func (c *Ctx) isSocketNextWriter(in ssa.Instruction) bool {
+	ci, ok := in.(ssa.CallInstruction)
+	return ok && strings.HasPrefix(calleeName(ci), "(*"+gorilla+".Conn).") && methodOf(ci) == "NextWriter"
 }
